@@ -1,7 +1,8 @@
 """Test actors of check C13 ("user code").  Every ``apply`` is an explicit function of (hyper-parameters in effect,
 training history, input): it returns ``(tag, sorted param items, history, features)`` so the output reveals exactly
 which state and which parameters an actor instance is using.  Every training step records
-``(features, labels, alpha in effect when trained)``.
+``(features, labels, alpha in effect when trained)``; the *Fold* actors instead learn a single value that may be falsy
+(0, 0.0, '', [], {}, False, ()) and show it as ``('S', value)``.
 
 The file is used twice by checks/c13.py: imported as the module ``vlib.c13_actors`` (classes resolvable by qualified
 name: stdlib pickle and cloudpickle by reference) and ``exec``-ed into an anonymous namespace (classes not importable:
@@ -346,6 +347,123 @@ class Estimator2(_Estimator):
 # the documented non-decorator form (``RfcActor = wrap.Actor.type(RandomForestClassifier, ...)``): the actor class
 # carries the qualified name of its origin, so only cloudpickle (by value) can serialize it
 WrapAssigned = wrap.Actor.type(Estimator2, train='fit', apply=lambda e, *features: e.predict(*features))
+
+
+# ---------------------------------------------------------------------------------------------- falsy learned states
+def _fold(state, labels):
+    """The learned value: the first labels as they are (possibly 0, 0.0, '', [], {}, False, ()), later ones nested on
+    top - so a continuation from a restored state differs visibly from a restart from scratch."""
+    return labels if state is None else (state, labels)
+
+
+@wrap.Actor.train
+def FnFold(state, features, labels, *, alpha=1, beta='b'):  # pylint: disable=invalid-name,unused-argument
+    """Stateful function actor whose trained state may be falsy - train part."""
+    return _fold(state, labels)
+
+
+@FnFold.apply
+def FnFold(state, features, *, alpha=1, beta='b'):  # pylint: disable=invalid-name,function-redefined
+    """Stateful function actor whose trained state may be falsy - apply part."""
+    return 'ff', _items({'alpha': alpha, 'beta': beta}), ('S', state), (features,)
+
+
+class NativeFoldDefault(flow.Actor):
+    """Native actor, default state, learned value may be falsy."""
+
+    TAG = 'fd'
+
+    def __init__(self, alpha=0, beta='b'):
+        self.alpha = alpha
+        self.beta = beta
+        self.learned = None
+
+    def train(self, features, labels, /):
+        self.learned = _fold(self.learned, labels)
+
+    def apply(self, *features):
+        return self.TAG, _items(self.get_params()), ('S', self.learned), tuple(features)
+
+    def get_params(self):
+        return {'alpha': self.alpha, 'beta': self.beta}
+
+    def set_params(self, **params):
+        for key, value in params.items():
+            if key not in {'alpha', 'beta'}:
+                raise ValueError(f'unknown param {key}')
+            setattr(self, key, value)
+
+
+class NativeFoldCustom(NativeFoldDefault):
+    """Native actor, own state codec (empty only when never trained), learned value may be falsy."""
+
+    TAG = 'fc'
+
+    def get_state(self):
+        return b'' if self.learned is None else b'L' + pickle.dumps(self.learned)
+
+    def set_state(self, state):
+        if state:
+            assert state[:1] == b'L'
+            self.learned = pickle.loads(state[1:])
+
+
+@wrap.Actor.type(train='fit', apply='predict')
+class WrapFoldNamed:
+    """sklearn-like estimator whose fitted attribute may be falsy (method-name mapping)."""
+
+    def __init__(self, alpha=1, beta='b'):
+        self.alpha = alpha
+        self.beta = beta
+        self.learned_ = None
+
+    def fit(self, features, labels):  # pylint: disable=unused-argument
+        self.learned_ = _fold(self.learned_, labels)
+        return self
+
+    def predict(self, *features):
+        return 'wf', _items(self.get_params()), ('S', self.learned_), tuple(features)
+
+    def get_params(self, deep=True):  # pylint: disable=unused-argument
+        return {'alpha': self.alpha, 'beta': self.beta}
+
+    def set_params(self, **params):
+        for key, value in params.items():
+            if key not in {'alpha', 'beta'}:
+                raise ValueError(f'unknown param {key}')
+            setattr(self, key, value)
+        return self
+
+
+class FoldGadget:
+    """Foreign API user class whose learned value may be falsy (callable mappings)."""
+
+    def __init__(self, alpha=1, beta='b'):
+        self._config = {'alpha': alpha, 'beta': beta}
+        self._learned = None
+
+    def learn(self, labels):
+        self._learned = _fold(self._learned, labels)
+
+    def infer(self, features):
+        return 'wg', _items(self._config), ('S', self._learned), tuple(features)
+
+    def config(self):
+        return dict(self._config)
+
+    def configure(self, config):
+        if set(config) - {'alpha', 'beta'}:
+            raise ValueError(f'unknown params {config}')
+        self._config.update(config)
+
+
+WrapFoldCallable = wrap.Actor.type(
+    FoldGadget,
+    train=lambda g, features, labels: g.learn(labels),
+    apply=lambda g, *features: g.infer(features),
+    get_params=lambda g: g.config(),
+    set_params=lambda g, **params: g.configure(params),
+)
 
 
 # ---------------------------------------------------------------------------------------------- statefulness only
